@@ -439,7 +439,8 @@ func unquoteChar(s string, info QuoteInfo) (value rune, multibyte bool, tail str
 			value = v
 			break
 		}
-		if v > utf8.MaxRune {
+		if v < 0 || v > utf8.MaxRune {
+			// v is negative for \U escapes with the top bit set.
 			err = errSyntax
 			return
 		}
